@@ -113,6 +113,7 @@ def check_round_trip(name="everything", extra_type_names=()):
         open(os.path.join(d, "schema_dir", "sub", "c.types.v2.gql"), "w").write(extra2)
         open(os.path.join(d, "schema_dir", "notes.graphql.txt"), "w").write("this is not SDL {")
         os.makedirs(os.path.join(d, "schema_dir", "empty.graphql"))
+        extra_first = extra
         extra = extra + "\n" + extra2
         source_dir = G.build_schema(sdl + "\n" + extra)
         # every accepted file type, in the spellings the settings accept (the type is case-insensitive)
@@ -146,6 +147,38 @@ def check_round_trip(name="everything", extra_type_names=()):
             except Exception as e:   # noqa
                 rep["outcome"][target] = f"{type(e).__name__}: {str(e)[:200]}"
                 rep["failed"].append(f"round-trip[{target}]")
+        # history: the schema source is edited in place (a file inside the directory; the single file) and the command is run
+        # again over its earlier output, with other variable names: the output is the one of the inputs as they are NOW
+        try:
+            import time
+            extra3 = "type AddedLater { n: Int }"
+            time.sleep(0.02)
+            with open(os.path.join(d, "schema_dir", "sub", "b_more.graphqls"), "a") as f:
+                f.write("\n" + extra3)
+            with open(os.path.join(d, "schema.graphql"), "a") as f:
+                f.write("\n" + extra3)
+            now_dir, now_single = G.build_schema("\n".join([sdl, extra_first, extra3, extra2])), G.build_schema(sdl + "\n" + extra3)      # (files in sorted order)
+            for target, from_dir, var, tmv in (("from_dir.py", True, "laterSchema", "later_map"), ("from_dir.graphql", True, "schema", "type_map"),
+                                               ("out.py", False, "laterSchema", "later_map"), ("out.graphql", False, "schema", "type_map")):
+                cfg = dict(schema_path=os.path.join(d, "schema_dir" if from_dir else "schema.graphql"), target_file_path=os.path.join(d, target),
+                           schema_variable_name=var, type_map_variable_name=tmv, plugins=[])
+                with contextlib.redirect_stdout(io.StringIO()):
+                    graphql_schema({"tool": {"ariadne-codegen": cfg}})
+                if target.endswith(".py"):
+                    ns = {}
+                    exec(compile(open(os.path.join(d, target)).read(), target, "exec"), ns)
+                    if var not in ns or tmv not in ns:
+                        rep["failed"].append(f"regenerated-with-the-chosen-variable-names[{target}]")
+                        continue
+                    rebuilt = ns[var]
+                else:
+                    rebuilt = G.build_schema(open(os.path.join(d, target)).read())
+                if G.print_schema(rebuilt) != G.print_schema(now_dir if from_dir else now_single):
+                    rep["failed"].append(f"regenerated-from-the-edited-source[{target}]")
+                    rep["cases"].append("regenerated:" + target)
+        except Exception as e:   # noqa
+            rep["outcome"]["regeneration"] = f"{type(e).__name__}: {str(e)[:200]}"
+            rep["failed"].append("regenerated-from-the-edited-source")
     finally:
         shutil.rmtree(d, ignore_errors=True)
     return rep
